@@ -19,6 +19,27 @@ def wf_cfg(name):
     return c
 
 
+def wf_cfg2(name):
+    """a second valid configuration of the same scheme in which every width differs from wf_cfg (two services of one scheme
+    on one server / in one client process must not see each other's parameters)"""
+    over = {
+        'CJJ14.PiBas': dict(param_lambda=24, prf_f_output_length=24),
+        'CJJ14.PiPack': dict(param_lambda=24, prf_f_output_length=24, param_B=8, param_identifier_size=4),
+        'CJJ14.PiPtr': dict(param_lambda=24, prf_f_output_length=24, param_B=8, param_b=4, param_identifier_size=4),
+        'CJJ14.Pi2Lev': dict(param_lambda=24, prf_f_output_length=24, param_B=3, param_b=3, param_B_prime=3, param_b_prime=3, param_identifier_size=4),
+        'CT14.Pi': dict(param_k=24, param_k_prime=32, param_l=8, param_identifier_size=4),
+        'ANSS16.Scheme3': dict(param_lambda=24, param_k=24, param_k_prime=24, param_l=8, param_l_prime=20, param_identifier_size=4),
+        'DP17.Pi': dict(param_lambda=24, param_L=2, param_actual_storage_level_ratio=0.5, param_identifier_size=4, hash_h='sha256'),
+        'CGKO06.SSE1': dict(param_k=24, param_l=8, param_s=256, param_dictionary_size=16, param_identifier_size=4),
+        'CGKO06.SSE2': dict(param_k=24, param_l=8, param_max_file_size=300, param_identifier_size=4),
+    }[name]
+    return sse.base_cfg(name, **over)
+
+
+def json_db_small_ids():
+    return {'alpha': ['deadbeef', '00000001', 'CAFE0000', '01020304', '0a0b0c0d'], 'beta': ['deadbeef'], 'gam': ['11111111', '22222222']}
+
+
 def json_dbs():
     db1 = json.load(open(core.REPO + '/example_db.json'))
     db2 = {
@@ -38,12 +59,13 @@ def describe(tier):
                 'driver mirrors frontend/client/commands.py (JSON -> convert_database_keyword_to_bytes, wait callbacks) and searches every '
                 'keyword plus one absent keyword in both search steps. Oracle: the bytes handed to the search callback deserialize to '
                 'DB.get(w, empty); hex/int/raw (and utf8 for printable identifiers) renderings of BytesConverter reproduce the JSON identifiers; '
-                'a step that raises or a search that ends in the client\'s 60 s (virtual) timeout is a violation. Deliveries are sequential '
+                'a step that raises or a search that ends in the client\'s 60 s (virtual) timeout is a violation. Plus, per scheme, two services with different parameters interleaved command by '
+                'command on one server and one client process (both orders). Deliveries are sequential '
                 '(one client): no scheduling choices. non-trivial = placement with at least one reload.',
         'bounds': '2^6 placements x 3 restart options per (scheme, database); 7 steps',
         'assumptions': ['in-memory transport instead of TCP (validated by mc/loopback.py on loopback TCP)',
                         'server restart = the server process is killed between two client commands and started again on the same directory'],
-        'must_be_nonzero': ['workflows', 'absent-searched', 'server-restarts', 'reloads'],
+        'must_be_nonzero': ['workflows', 'absent-searched', 'server-restarts', 'reloads', 'tcp-loopback-replays', 'two-service-workflows'],
     }
 
 
@@ -64,7 +86,16 @@ def units(tier, seed):
         for dbi in range(2):
             for k in range(0, n, CHUNK):
                 us.append(('%s/db%d/%d' % (name, dbi, k), {'scheme': name, 'dbi': dbi, 'lo': k, 'hi': k + CHUNK}))
-    return us
+    for name in sse.SCHEMES:
+        us.append(('two-services/%s' % name, {'two': name}))
+    # conformance of the transport model: workflows replayed over real loopback TCP with the real client (mc/loopback.py)
+    if tier == 'quick':
+        us.append(('tcp/0', {'tcp': [['CJJ14.PiBas', 0, [1, 0, 1, 0, 1, 1]]]}))
+        us.append(('tcp/1', {'tcp': [['CJJ14.Pi2Lev', 1, [0, 0, 0, 0, 0, 0]]]}))
+    else:
+        for i, name in enumerate(sse.SCHEMES):
+            us.append(('tcp/%d' % i, {'tcp': [[name, i % 2, [1, 1, 1, 1, 1, 1]], [name, (i + 1) % 2, [0, 1, 0, 0, 1, 0]]]}))
+    return sorted(us, key=lambda u: not u[0].startswith('tcp'))
 
 
 def run_case(r, seed, name, dbi, bits, restart):
@@ -170,8 +201,84 @@ def run_case(r, seed, name, dbi, bits, restart):
         r.sample(case)
 
 
+def run_two_services(r, seed, name, order):
+    """two services of ONE scheme with different parameters, interleaved command by command on one server and in one client
+    process: parameters, keys and indexes of one service must not leak into the other"""
+    from toolkit.database_utils import convert_database_keyword_to_bytes
+    case = {'scheme': name, 'two_services': True, 'order': order}
+    core.note_case(case)
+    det.seed_case(seed, PROPERTY, 'two', name, order)
+    jd = [json_dbs()[0], json_db_small_ids()]
+    cfgs = [wf_cfg(name), wf_cfg2(name)]
+    bd = [convert_database_keyword_to_bytes(j) for j in jd]
+    cfgs = [sse.finalize_cfg(name, c, b) for c, b in zip(cfgs, bd)]
+    idx = [0, 1] if order == 0 else [1, 0]
+    r['evaluations'] += 1
+    r['states'] += 1
+    r['nontrivial'] += 1
+    r.count('two-service-workflows')
+    w = fe.World(eager=True)
+    step = 'boot'
+    try:
+        w.start_server()
+        cl = [fe.ClientDriver(w), fe.ClientDriver(w)]
+        for step in ('create', 'genkey', 'encrypt', 'upload-config', 'upload-index'):
+            for i in idx:
+                r['transitions'] += 1
+                if step == 'create':
+                    cl[i].create(copy.deepcopy(cfgs[i]))
+                    continue
+                cl[i].load()
+                if step == 'genkey':
+                    cl[i].genkey()
+                elif step == 'encrypt':
+                    cl[i].encrypt(convert_database_keyword_to_bytes(jd[i]))
+                elif step == 'upload-config':
+                    cl[i].upload_config(); cl[i].drop()
+                else:
+                    cl[i].upload_index(); cl[i].drop()
+        for rnd in range(2):
+            for i in (idx if rnd == 0 else idx[::-1]):
+                for kw in list(jd[i]) + ['nokw']:
+                    step = 'search'
+                    cl[i].load()
+                    got = cl[i].search(bytes(kw, 'utf-8'))
+                    res = cl[i].svc.sse_module_loader.SSEResult.deserialize(got[0], cl[i].svc.config_object).get_result_list() if got else None
+                    cl[i].drop()
+                    r['transitions'] += 1
+                    exp = bd[i].get(bytes(kw, 'utf-8'), [])
+                    if res is None or not sse.result_ok(name, res, exp):
+                        r.v(PROPERTY, name, 'result-differs', 'two-services/' + (sse.classify_diff(name, res, exp) if res is not None else 'none'),
+                            dict(case, service=i, keyword=kw), exp, res)
+                        r.outcome('two-services-differs')
+                    else:
+                        r.outcome('two-services-ok')
+    except Exception as e:
+        r.v(PROPERTY, name, 'step-raises', 'two-services/%s/%s:%s' % (step, core.exc_site(e), type(e).__name__), dict(case, step=step), 'workflow step succeeds', core.exc_text(e))
+    finally:
+        w.close()
+    r.sample(case, limit=1)
+
+
 def run_unit(p, tier, seed):
     r = core.Result()
+    if 'two' in p:
+        for order in (0, 1):
+            run_two_services(r, seed, p['two'], order)
+        det.restore()
+        return r
+    if 'tcp' in p:
+        from mc import loopback
+        n, bad = loopback.replay_c09_workflows(seed, [tuple(c) for c in p['tcp']])
+        r.count('tcp-loopback-replays', n)
+        r['evaluations'] += n
+        r['traces'] += n
+        for b in bad:
+            r.v(PROPERTY, 'harness', 'virtual-vs-tcp-disagreement', 'c09-workflow', {'tcp': p['tcp']}, 'correct results over loopback TCP as on the virtual network', b)
+        r.outcome('tcp-agrees' if not bad else 'tcp-disagrees')
+        r.sample({'tcp_loopback_replay': p['tcp'][0]}, limit=1)
+        det.restore()
+        return r
     for bits, restart in placements()[p['lo']:p['hi']]:
         run_case(r, seed, p['scheme'], p['dbi'], bits, restart)
     det.restore()
@@ -180,5 +287,10 @@ def run_unit(p, tier, seed):
 
 def replay(case, seed):
     r = core.Result()
+    if 'tcp' in case:
+        return run_unit({'tcp': case['tcp']}, 'quick', seed)['violations']
+    if case.get('two_services'):
+        run_two_services(r, seed, case['scheme'], case['order'])
+        return r['violations']
     run_case(r, seed, case['scheme'], case['db'], case['reload_before_step'], case['server_restart_before_step'])
     return r['violations']
